@@ -587,6 +587,12 @@ def rules(ctx):
 
 S = "src/leaspy/variables/state.py"
 VARIANTS = [
+    V("silent-extract-assign-helper", S, """            raise LeaspyInputError(f"'{name}' is not intended to be set")
+        sorted_children = self.dag.sorted_children[name]""", """            raise LeaspyInputError(f"'{name}' is not intended to be set")
+        self._assign(name, value)
+
+    def _assign(self, name, value) -> None:
+        sorted_children = self.dag.sorted_children[name]""", None),
     V("definition-writes-into-its-input", "src/leaspy/variables/distributions.py", "                torch.clone(x.value)\n", "                x.value.to(dtype=time.dtype)\n", "C01.R6c"),
     V("silent-clone-shallow-copy", S, "        cloned._values = copy.deepcopy(self._values)", "        cloned._values = dict(self._values)", None),
     V("put-in-place-when-no-fork", S, "        self[variable_name] = self[variable_name].index_put(", "        self[variable_name] = (self[variable_name].index_put_ if self.auto_fork_type is None else self[variable_name].index_put)(", "C01.R4a"),
